@@ -85,7 +85,7 @@ def run_selftest(pid, root, base_idents, jobs=16):
         want = v.get("rule")
         hit = [i for i in new if want is None or i[0] == want or i[0].startswith(want)]
         # an analysis-error on a mutant is accepted when the mutant declares it (anchor destroyed)
-        ok = bool(hit) or (st == "analysis-error" and v.get("accept_error"))
+        ok = bool(hit) or bool(st == "analysis-error" and v.get("accept_error"))
         out["fired"] += int(ok)
         out["details"].append({"id": v["id"], "kind": "mutant", "status": st, "fired": ok, "new": [list(i) for i in sorted(new)][:4] if st == "ran" else ids})
         if not ok:
